@@ -1409,7 +1409,7 @@ def fn_c_state(items):
             k = step_kind(gs0, ps0, r0, Gs[row])
             return pur + ',' + ('eigen' if k.startswith('eigen') else 'zero-expectation')
         cl(acc, 'StabilizerState.expect', lambda f, r: 'operand=PauliList,' + ek(f, r), lambda: nm() + '.expect(PauliList whole group)',
-           lambda S: st(S).expect(S.PL(Gs, Ps)))
+           lambda S: _with_receiver(st(S), lambda a: a.expect(S.PL(Gs, Ps))))
         for j, g in enumerate(G):
             pj = (j + ti) % 4
             k = step_kind(gs0, ps0, r0, g)
@@ -1431,7 +1431,7 @@ def fn_c_state(items):
                    lambda: nm() + '.entropy(%s %s)' % (fn_, sub), lambda S: st(S).entropy(mkf()), nt=bool(sub) and len(sub) < N)
         cl(acc, 'StabilizerState.density_matrix', pur, lambda: nm() + '.density_matrix', lambda S: st(S).density_matrix)
         for bits in itertools.product((0, 1), repeat=N):
-            cl(acc, 'StabilizerState.get_prob', pur, lambda: nm() + '.get_prob(%s)' % (bits,), lambda S: st(S).get_prob(S.ints(bits)))
+            cl(acc, 'StabilizerState.get_prob', pur, lambda: nm() + '.get_prob(%s)' % (bits,), lambda S: _with_receiver(st(S), lambda a: a.get_prob(S.ints(bits))))
         cl(acc, 'StabilizerState.to_map', pur, lambda: nm() + '.to_map()', lambda S: st(S).to_map())
         cl(acc, 'StabilizerState.copy', pur, lambda: nm() + '.copy()', lambda S: st(S).copy())
         cl(acc, 'StabilizerState.tokenize', pur, lambda: nm() + '.tokenize()', lambda S: st(S).tokenize())
@@ -1443,6 +1443,18 @@ def fn_c_state(items):
         cl(acc, 'StabilizerState.__matmul__', pur + ',operand=Pauli', lambda: nm() + ' @ Pauli', lambda S: st(S) @ S.P(G[-1], 1))
         outs.append(acc.out())
     return merge_out(outs)
+
+
+def _query_with_parties(a, b):
+    """expect(state) returning [receiver after, operand after, value]: both packages must also leave the
+    same receiver / operand behind (a query that overwrites its receiver diverges here)."""
+    v = a.expect(b)
+    return [a, b, v]
+
+
+def _with_receiver(a, f):
+    v = f(a)
+    return [a, v]
 
 
 def fn_c_overlap(items):
@@ -1459,7 +1471,7 @@ def fn_c_overlap(items):
             g1, p1, r1 = tabs[oi]
             cl(acc, 'StabilizerState.expect', 'operand=StabilizerState,receiver=%s,operand-%s' % ('pure' if r0 == 0 else 'mixed', 'pure' if r1 == 0 else 'mixed'),
                lambda: '%s.expect(%s)' % (stab.describe(gs0, ps0, r0), stab.describe(g1, p1, r1)),
-               lambda S: S.ST(gs0, ps0, r0).expect(S.ST(g1, p1, r1)), nt=r0 == 0)
+               lambda S, g1=g1, p1=p1, r1=r1: _query_with_parties(S.ST(gs0, ps0, r0), S.ST(g1, p1, r1)), nt=r0 == 0)
         outs.append(acc.out())
     return merge_out(outs)
 
